@@ -30,9 +30,10 @@ func confinementLayout(g *gen.G) *layout {
 	file("/w/out.yaml", "DECOY-out", nil)
 	file("/w/out.b.yaml", "DECOY-out.b", nil)
 	file("/w/other/o.yaml", "DECOY-o", nil)
+	file("/o/far.yaml", "DECOY-far", nil) // outside the working directory too (the root may BE the working directory)
 	var extra map[string]any
 	if g.P(0.7) {
-		extra = map[string]any{"$parent": g.Pick([]string{"../out", "../other/o", "sub/s", "sub/../a", "/w/out", "../out.*", "a", "sub/../../out", "l", "d/s", "d/o"})}
+		extra = map[string]any{"$parent": g.Pick([]string{"../out", "../other/o", "sub/s", "sub/../a", "/w/out", "../out.*", "a", "sub/../../out", "l", "d/s", "d/o", "../../o/far", "/o/far"})}
 	}
 	if g.P(0.15) {
 		// a $parent name with two matches: a real layer and a link (another extension) that
@@ -45,7 +46,7 @@ func confinementLayout(g *gen.G) *layout {
 	}
 	file(rootDir+"/a.b.yaml", "a.b", extra)
 	if g.P(0.6) {
-		l.Fs[rootDir+"/l.yaml"] = fsx.Entry{Kind: "symlink", Target: g.Pick([]string{"a.yaml", "sub/s.yaml", "../out.yaml", "/w/out.yaml", "/w/root/a.yaml", "sub/../../out.yaml", "m.yaml", "a.b.yaml", "../out.b.yaml"})}
+		l.Fs[rootDir+"/l.yaml"] = fsx.Entry{Kind: "symlink", Target: g.Pick([]string{"a.yaml", "sub/s.yaml", "../out.yaml", "/w/out.yaml", "/w/root/a.yaml", "sub/../../out.yaml", "m.yaml", "a.b.yaml", "../out.b.yaml", "../../o/far.yaml", "/o/far.yaml"})}
 		if l.Fs[rootDir+"/l.yaml"].Target == "m.yaml" {
 			l.Fs[rootDir+"/m.yaml"] = fsx.Entry{Kind: "symlink", Target: g.Pick([]string{"a.yaml", "../out.yaml", "sub/s.t.yaml"})}
 		}
@@ -60,7 +61,7 @@ func confinementLayout(g *gen.G) *layout {
 	if _, ok := l.Fs[rootDir+"/d"]; !ok && len(l.Inputs[0]) > 6 && l.Inputs[0][:7] == "root/d/" {
 		l.Inputs[0] = "root/a.b.yaml"
 	}
-	l.Root = g.Pick([]string{rootDir, rootDir, rootDir, rootDir + "/sub", "/w", "/"})
+	l.Root = g.Pick([]string{rootDir, rootDir, rootDir, rootDir + "/sub", "/w", "/w", "/"})
 	return l
 }
 
